@@ -118,6 +118,35 @@ pub fn spec(id: &str, tier: Tier) -> Option<CheckSpec> {
             s.hang_secs = 40;
             s
         }
+        "C02" | "C03" | "C08" | "C09" | "C17" => {
+            let mut s = CheckSpec::new("model_checking", tier);
+            s.jobs = eng_hist::jobs(id, tier);
+            if id == "C08" {
+                s.jobs.extend(eng_dbrt::jobs(tier));
+            }
+            if id == "C17" {
+                s.jobs.extend(eng_sched::jobs("C17", tier));
+            }
+            s.rule = format!("exhaustive walk of the history tree of the templates {:?}: a history alternates edit sets (every single edit of the template's alphabet: touch each source/header, delete/touch each output and intermediate, delete a header, delete a declared source, change what a compiler reports, replace the manifest by each variant / let the generator write each variant; thorough: also all compatible pairs in the first round) and invocations (build default / each single target / every completion order at -j2 / build with each failing command, with -k1 / n2 killed after 1-2 completions leaving fresh garbage / restat) to depth {}; each invocation runs the real loader, db and scheduler on a real tree under the scripted executor, and is judged against the reference model: everything that ran was dirty, after success everything wanted is clean and carries the content tag a from-scratch evaluation gives, an identical repeat does nothing. States = history nodes, transitions = invocations, non-trivial = invocations judged without violation after a non-empty history step.", s.jobs.iter().map(|j| j.0.clone()).collect::<Vec<_>>(), tier.pick(2, 3));
+            s.assumptions = vec![
+                "a content change comes with an mtime change (logical clock), nothing else writes the tree during a build, phony aliases are not used as dirtying inputs".into(),
+                "commands are scripted; inside an invocation the completion order is the default one at -j1 except for the all-orders invocation of the first round".into(),
+            ];
+            s.hang_secs = 60;
+            s
+        }
+        "C07" => {
+            let mut s = CheckSpec::new("fault_enumeration", tier);
+            s.jobs = eng_crash::jobs(tier);
+            s.rule = "for each of 8 histories (first build creating the log; build-touch-rebuild; build, renumbering manifest edit, rebuild; a build that adds path records for new discovered dependencies; three builds with superseded records; -j1 and -j2) the last build is re-run once per (log write index, number of bytes of that write that reached the file, 0..=len), the write persists exactly that prefix and the invocation dies; then a fault-free invocation must load the log (through the facade: every step has a loaded record iff its record was persisted completely, with the dependency list that was written), run exactly the steps the reference model calls dirty given the surviving records, succeed with clean-build contents, and a third invocation must do nothing; thorough: additionally a second crash at every write of the recovery invocation (boundary byte counts). Non-trivial = crash points after which recovery was judged completely.".into();
+            s.assumptions = vec![
+                "a crash loses the tail of the write in progress and nothing else (the log is appended with write(2), earlier writes are intact); fsync-less reordering across writes is outside the model".into(),
+                "the process death is simulated by unwinding out of the invocation right after the partial write".into(),
+            ];
+            s.bounds = json!({"crash_depth": tier.pick(1, 2)});
+            s.must_be_nonzero = vec!["db_writes_in_history"];
+            s
+        }
         _ => return None,
     };
     Some(spec)
@@ -149,6 +178,7 @@ pub fn case_from_marker(_prop: &str, job: &str, index: u64, bytes: &[u8]) -> Val
         "depfile" => eng_depfile::case_from_marker(job, bytes),
         "total" => eng_total::case_from_marker(job, bytes),
         "sched" => eng_sched::case_from_marker(job, bytes),
+        "hist" => eng_hist::case_from_marker(job, bytes),
         _ => json!({"job": job, "index": index, "marker": String::from_utf8_lossy(bytes)}),
     }
 }
